@@ -53,6 +53,9 @@ func runC07(rc *RC) {
 	if !opts.S2S && ch.Chance("workload", 1, 4) {
 		opts.WS = true
 	}
+	if !opts.S2S && !opts.WS && ch.Chance("workload", 1, 5) {
+		opts.Comp = true // a component's session (content namespace jabber:component:accept)
+	}
 	strat := rc.S.ConfigureStrategy()
 	e := rc.NewE2(opts)
 	if e == nil {
@@ -162,7 +165,7 @@ func runC07(rc *RC) {
 	for _, in := range ins {
 		rc.Describe("%s", in.xml)
 	}
-	rc.CaseKey = fmt.Sprint(variant, hasCollide, opts.S2S, opts.WS, wf)
+	rc.CaseKey = fmt.Sprint(variant, hasCollide, opts.S2S, opts.WS, opts.Comp, wf)
 	byIdx := func(start *xml.StartElement, r xml.TokenReader) *c07In {
 		// the payload's n attribute identifies the stanza even without an id
 		for {
